@@ -198,7 +198,8 @@ def run(ctx):
         b = hir.last_expr(nw[0]["body"])
         if b["k"] == "Struct":
             fl = {x["name"]: x["expr"] for x in b["fields"]}
-            ok = (field_path(fl["raw_components"]) == ("raw_components",) and field_path(fl["placeholder_index"]) == ("placeholder_index",)
+            nwp = [q.get("name") for q in nw[0]["params"]]           # new(raw_components, placeholder_index): by position
+            ok = (len(nwp) == 2 and field_path(fl["raw_components"]) == (nwp[0],) and field_path(fl["placeholder_index"]) == (nwp[1],)
                   and strip(fl["now_index"])["k"] == "Lit" and strip(fl["now_index"])["lit"]["v"] == 0)
     ctx.ob("K-IMAGEITER", "new()", ok, "")
 
